@@ -94,16 +94,17 @@ __CPROVER_ensures(g_nbu == 1 && upd_energy_ok() && upd_force_ok(0) && upd_force_
 __CPROVER_ensures(g_bu_tn == 3)
 ;
 /* update_centers(lambda): c_new = interpolate(initial_i, target_i, lambda) on the value's manifold; the increment used for the accumulated
-   work is 1/2 grad dist2(c_new, old centre) and is taken BEFORE the centre is replaced; the new centre is c_new wrapped by its variable */
+   work is 1/2 grad of the VARIABLE'S OWN squared distance (shortest image for a periodic variable) between c_new and the old centre, taken
+   BEFORE the centre is replaced; the new centre is c_new wrapped by its variable */
 static _Bool uc_cnew(int n, int k) { return r_op(n) == T_CALL + CID_INTERPOLATE && r_a(n) == g_un[5 + k] && r_b(n) == g_un[7 + k] && r_c(n) == g_un[4]; }
-static _Bool uc_incr_ok(int k) { int r = g_uo[k], g = r_b(r); return r_op(r) == T_MUL && P_LEAF(r_a(r), 0.5) && r_op(g) == T_CALL + CID_CVV_DIST2_GRAD && uc_cnew(r_a(g), k) && r_b(g) == g_un[9 + k]; }
+static _Bool uc_incr_ok(int k) { int r = g_uo[k], g = r_b(r); return r_op(r) == T_MUL && P_LEAF(r_a(r), 0.5) && r_op(g) == T_CALL + CID_DIST2_LGRAD && r_a(g) == k && uc_cnew(r_b(g), k) && r_c(g) == g_un[9 + k]; }
 static _Bool uc_centre_ok(int k) { int r = g_uo[2 + k]; return r_op(r) == T_CALL + CID_WRAP && r_a(r) == k && uc_cnew(r_b(r), k); }
 int k_update_centers_body(void)
 __CPROVER_requires(g_tn == 0)
 __CPROVER_assigns(R_ECHO, TERM_FRAME, __CPROVER_object_whole(g_un), __CPROVER_object_whole(g_uo), g_errors, g_error_bits)
 __CPROVER_ensures(uc_incr_ok(0) && uc_incr_ok(1) && uc_centre_ok(0) && uc_centre_ok(1))
 /* same interpolated value in increment and centre */
-__CPROVER_ensures(r_a(r_b(g_uo[0])) == r_b(g_uo[2]) && r_a(r_b(g_uo[1])) == r_b(g_uo[3]))
+__CPROVER_ensures(r_b(r_b(g_uo[0])) == r_b(g_uo[2]) && r_b(r_b(g_uo[1])) == r_b(g_uo[3]))
 ;
 
 /* walls: signed displacement beyond the applicable wall (0 between the walls).
